@@ -8,6 +8,7 @@ package main
 //   stream "conc"         (C20): query goroutines against a per-height oracle while blocks execute
 
 import (
+	aolkeeper "github.com/medibloc/panacea-core/v2/x/aol/keeper"
 	"bytes"
 	"encoding/json"
 	"fmt"
@@ -355,6 +356,45 @@ func init() {
 					return "fail #import"
 				}
 				seen[aolDump(c, c.QueryCtx())] = true
+			}
+			if len(seen) > 1 {
+				return fmt.Sprintf("fail #%d-different-states-from-one-valid-genesis", len(seen))
+			}
+			return "pass"
+		}))
+		// a valid AOL genesis whose records are not all below their topic's counter (validation does not relate the two),
+		// imported repeatedly and followed by one append: the state and the acknowledged offset must not depend on the
+		// order in which the import visits the genesis maps
+		s.Emit("mon.c09.genesis-order", guard(func() string {
+			o := sdk.AccAddress(bytes.Repeat([]byte{7}, 20)).String()
+			w := sdk.AccAddress(bytes.Repeat([]byte{8}, 20)).String()
+			rec := func(off int, k string) string {
+				return fmt.Sprintf(`"%s/t/%d":{"key":"%s","value":"dg==","nano_timestamp":"5","writer_address":"%s"}`, o, off, k, w)
+			}
+			gen := fmt.Sprintf(`{"owners":{"%s":{"total_topics":"1"}},"topics":{"%s/t":{"description":"d","total_records":"2","total_writers":"1"}},"writers":{"%s/t/%s":{"moniker":"m","description":"","nano_timestamp":"1"}},"records":{%s,%s,%s,%s,%s}}`,
+				o, o, o, w, rec(0, "YQ=="), rec(1, "Yg=="), rec(5, "Yw=="), rec(9, "ZA=="), rec(12, "ZQ=="))
+			var gs aoltypes.GenesisState
+			probe, _ := NewChain(dbm.NewMemDB(), tmpHome(), nil, 0, nil)
+			if err := probe.App.AppCodec().UnmarshalJSON([]byte(gen), &gs); err != nil {
+				return "pass #genesis-not-decodable " + err.Error()
+			}
+			if err := gs.Validate(); err != nil {
+				return "pass #rejected-by-validate"
+			}
+			seen := map[string]bool{}
+			for i := 0; i < 16; i++ {
+				c, err := NewChain(dbm.NewMemDB(), tmpHome(), nil, 0, map[string]json.RawMessage{aoltypes.ModuleName: json.RawMessage(gen)})
+				if err != nil {
+					return "fail #import"
+				}
+				c.Begin(c.Time.Add(time.Second))
+				ms := aolkeeper.NewMsgServerImpl(c.App.AolKeeper)
+				r, err := ms.AddRecord(sdk.WrapSDKContext(c.DeliverCtx()), &aoltypes.MsgAddRecordRequest{TopicName: "t", Key: []byte("n"), Value: []byte("v"), WriterAddress: w, OwnerAddress: o})
+				off := "err"
+				if err == nil {
+					off = fmt.Sprint(r.Offset)
+				}
+				seen[off+"|"+aolDump(c, c.DeliverCtx())] = true
 			}
 			if len(seen) > 1 {
 				return fmt.Sprintf("fail #%d-different-states-from-one-valid-genesis", len(seen))
